@@ -28,6 +28,9 @@ VARIANT_OF = {
 def run(ctx, env):
     prog = env.prog("default")
     an = An(prog)
+    ctx.rule("R9.6", "no silent consumption in the V9 and value decoders: every parser step on a returned remainder chain contributes its decoded value to the result (bytes that are consumed but not stored cannot be re-exported); shared with C02 R2.8")
+    from . import consume as _consume
+    _consume.rule(ctx, prog, an, "R9.6", lambda b: b.path.startswith(("variable_versions::v9::", "variable_versions::data_number::")), floor=12)
     ctx.rule("R9.5", "V9 templates: every parsed template reaches the cache by an overwriting write on every path, and the template reported in the result is the parsed one (shared with C06 R6.8)")
     ctx.rule("R9.4", "if a field-decode failure can be swallowed (decoder still returns Ok), the swallowed unit is a whole record: the failure is handled at record level and the returned remainder (it becomes padding) only advances there")
     from . import records as _records
